@@ -112,9 +112,9 @@ k("c04_fold_logic", ["C04", "C07"], "complete",
 k("c19_scalar_eq", ["C19"], "complete",
   "int/bool/() compare by value; different kinds unequal; symmetric; reflexive", domain="all i64 x i64, bool x bool",
   inputs=("i64", "i64", "bool", "bool"), probe="eq", functions=["<Variable as PartialEq>::eq"])
-k("c19_float_eq", ["C19"], "complete", "floats compare by IEEE equality (NaN != NaN, 0.0 == -0.0); symmetric",
+k("c19_float_eq", ["C19", "C08"], "complete", "floats compare by IEEE equality (NaN != NaN, 0.0 == -0.0); symmetric",
   domain=ALLF, inputs=F2, probe="eq", functions=["<Variable as PartialEq>::eq"])
-k("c19_equal_ops", ["C19"], "complete", "`!=` is the negation of `==` (int, float incl. NaN, mixed kinds)",
+k("c19_equal_ops", ["C19", "C08"], "complete", "`!=` is the negation of `==` (int, float incl. NaN, mixed kinds)",
   domain="all i64 x i64, f64 x f64", inputs=("i64", "i64", "f64", "f64"), probe="eq",
   functions=["equal::exec", "not_equal::exec"])
 k("c19_array_eq_ignores_element_type", ["C19"], "bounded",
